@@ -17,9 +17,9 @@ CLAIMS.update({
    technique="Lean 4 executable specification + refinement lemmas (proved) + Spec-vs-implementation judge + model/implementation correspondence",
    ref="DESIGN.md §5 C01, §4.4"),
  "C02": dict(
-   text="The evaluator model computes every composite status through five aggregators; Lean theorems characterise them for child lists of every length (line = PASS iff one alternative passed / FAIL iff none passed and one failed; body, file, type block, filter likewise; clause quantifiers; named references; permutation and duplication invariance). The same statement as a decidable predicate on record trees (`Consistent`, Lean, compiled into the driver) is run on the IMPLEMENTATION's own record tree for every generated case, whole trees are compared with the model, and all CNF shapes up to LxA with leaves forced to PASS/FAIL/SKIP are enumerated at five sites and the file.",
-   note="Trusted: Lean kernel; `Consistent` reads the tree only, so `some` vs all and the polarity of a named/parameterised reference are accepted in either reading (covered by C01/C03); the record stack discipline of the Rust recorder is modelled as tree construction.",
-   technique="Lean 4 proof of the aggregation laws + Lean-defined tree-consistency judge on implementation records + exhaustive CNF-shape enumeration + correspondence",
+   text="The evaluator model computes every composite status through five aggregators; Lean theorems characterise them for child lists of every length (line = PASS iff one alternative passed / FAIL iff none passed and one failed; body, file, type block, filter likewise; clause quantifiers; named references; permutation and duplication invariance). The property itself is a decidable predicate on record trees (`Consistent`, Lean) and `C02_tree_consistent` proves it for the evaluator: for EVERY rules file, document, Env and fuel the record tree `runFile` returns is `Consistent` (induction on fuel over all 17 functions of the mutually recursive evaluator model, `allInv`), with `C02_root_is_verdict`, `C02_records_only_added`, `C02_clause_records_consistent` for the root, the recorder discipline and clauses evaluated from any state. The same predicate (compiled into the driver) is run on the IMPLEMENTATION's own record tree for every generated case, whole trees are compared with the model, and all CNF shapes up to LxA with leaves forced to PASS/FAIL/SKIP are enumerated at five sites and the file.",
+   note="Trusted: Lean kernel; the theorem is about the hand-written model, tied by whole-tree correspondence; `Consistent` reads the tree only, so `some` vs all and the polarity of a named/parameterised reference are accepted in either reading (covered by C01/C03); the record stack discipline of the Rust recorder is modelled as tree construction. Proving the theorem exposed two recorder defects (fix: eb29fe8, 7fa5906).",
+   technique="Lean 4 proof that every record tree of the evaluator model is Consistent (fuel induction over the mutual block) + aggregation laws + the same Lean predicate as judge on implementation records + exhaustive CNF-shape enumeration + whole-tree correspondence",
    ref="DESIGN.md §5 C02"),
  "C03": dict(
    text="Lean theorems: for every unary operator, value and polarity the check depends only on the XOR of prefix and operator negation (so `not X op` = `X !op`, double negation restores); for every binary operator the clause with a prefix not IS the clause with the operator-level not, as state transformers of the evaluator model (same status, records, errors, any query / right-hand side / scope / fuel); a single comparable value flips, not-comparable stays FAIL; `not X > v` iff `X <= v`; `not R` PASS iff R is not PASS. Tied by an exhaustive operator x polarity x shape stream on which the implementation's own verdicts are judged against these relations.",
@@ -29,7 +29,7 @@ CLAIMS.update({
 })
 CLAIMS.update({
  "C04": dict(
-   text="Lean theorems (lists of every length): every aggregation the evaluator performs is invariant under permutation and duplication of its inputs, and stopping a line at its first PASS yields the same line status as evaluating all alternatives in any order; the rule-status memo returns what was stored. The premise that no clause changes what another one sees is checked per case: structured random programs with all permutations of lines (<= 4), alternatives and rules, repeated lines/alternatives and rules duplicated under a new name, implementation verdicts compared across each class. The premise is FALSE for key-capture variables: listed known finding F-C04-1, whose canonical replay is re-run every time.",
+   text="Lean theorems (lists of every length): every aggregation the evaluator performs is invariant under permutation and duplication of its inputs, and stopping a line at its first PASS yields the same line status as evaluating all alternatives in any order; the rule-status memo returns what was stored; `C04_evaluator_short_circuits`: the evaluator model stops a line exactly at its first PASS (the statuses it returns are their own evaluated prefix), for every line, state and fuel. The premise that no clause changes what another one sees is checked per case: structured random programs with all permutations of lines (<= 4), alternatives and rules, repeated lines/alternatives and rules duplicated under a new name, implementation verdicts compared across each class. The premise is FALSE for key-capture variables: listed known finding F-C04-1, whose canonical replay is re-run every time.",
    note="Partial: the end-to-end statement for the evaluator needs the memo-soundness invariant (not proved); it is judged per case. Known finding F-C04-1 (known_findings.json).",
    technique="Lean 4 proof of permutation/duplication/short-circuit invariance of all aggregators + permutation-class judge on implementation verdicts",
    ref="DESIGN.md §5 C04"),
@@ -44,7 +44,7 @@ CLAIMS.update({
    technique="Lean 4 proof over exit-code folds with generated constants + real-binary correspondence + iff judge",
    ref="DESIGN.md §5 C06, Appendix C"),
  "C09": dict(
-   text="Lean mirror of simplified_json_from_root / report_all_failed_clauses_for_rules / FileReport::combine / Status::and, with theorems for every record tree: each evaluated rule appears under exactly the heading of its status; file status FAIL iff not_compliant non-empty, PASS iff empty and compliant non-empty (on a consistent tree); combine = union + Status::and = two-element aggregation = the table GENERATED from rules/mod.rs; every listed check IS a recorded failed check of that rule (custom message included), every FAIL rule is listed, nothing is attributed to PASS/SKIP rules. The model's report function is applied to the implementation's own trees and compared with the implementation's reports (library and real binary with 1..3 rules files); the statements are also judged directly on the implementation's report vs its tree.",
+   text="Lean mirror of simplified_json_from_root / report_all_failed_clauses_for_rules / FileReport::combine / Status::and, with theorems for every record tree: each evaluated rule appears under exactly the heading of its status; file status FAIL iff not_compliant non-empty, PASS iff empty and compliant non-empty (on a consistent tree); combine = union + Status::and = two-element aggregation = the table GENERATED from rules/mod.rs; every listed check IS a recorded failed check of that rule (custom message included), every FAIL rule is listed, nothing is attributed to PASS/SKIP rules; `C09_rule_statuses_are_evaluations`: the per-rule statuses the report partitions are exactly, in file order, (name, status returned by evaluating that rule) for every rule of the file, for the evaluator model at every fuel. The model's report function is applied to the implementation's own trees and compared with the implementation's reports (library and real binary with 1..3 rules files); the statements are also judged directly on the implementation's report vs its tree.",
    note="Trusted: serde_json serialisation is only read back. A genuine defect found by this check was repaired (5cf016c).",
    technique="Lean 4 proof by mutual structural induction over record trees + model-on-implementation-tree correspondence + report judge",
    ref="DESIGN.md §5 C09"),
